@@ -29,6 +29,7 @@ def dispatch (line : String) : String :=
     | "index" => Index.handle "index" args
     | "json" => Json.handle "json" args
     | "jsonck" => Json.handle "jsonck" args
+    | "text" => Text.handle "text" args
     | "cache" => CacheFs.handle "cache" args
     | "cli" => Cli.handle "cli" args
     | "det" => Det.handle "det" args
